@@ -1,0 +1,252 @@
+//go:build verif
+
+/*
+ * SPDX-License-Identifier: Apache-2.0
+ */
+
+package badger
+
+// Wrappers for the data-structure family ("ds") of the verification harness (build tag
+// "verif"): log record codec (logFile.encodeEntry / writeEntry / decodeEntry / iterate,
+// safeRead.Entry, valueLog.Read), entry header and value pointer codecs.  Everything here
+// only calls production code; no production logic is duplicated.
+
+import (
+	"bufio"
+	"bytes"
+	"os"
+	"time"
+
+	"github.com/dgraph-io/ristretto/v2/z"
+)
+
+// VerifLogEntry is a decoded log record as delivered by the production decoders.
+type VerifLogEntry struct {
+	Key       []byte
+	Value     []byte
+	Meta      byte
+	UserMeta  byte
+	ExpiresAt uint64
+	Offset    uint32 // Entry.offset
+	Hlen      int    // Entry.hlen (set by safeRead.Entry only)
+	// value pointer handed to the iterate callback
+	PtrFid    uint32
+	PtrOffset uint32
+	PtrLen    uint32
+}
+
+func verifLogEntryFrom(e *Entry) VerifLogEntry {
+	return VerifLogEntry{
+		Key:       append([]byte{}, e.Key...),
+		Value:     append([]byte{}, e.Value...),
+		Meta:      e.meta,
+		UserMeta:  e.UserMeta,
+		ExpiresAt: e.ExpiresAt,
+		Offset:    e.offset,
+		Hlen:      e.hlen,
+	}
+}
+
+// VerifLog is a real logFile (as used for the memtable WAL and the value log) over an mmap
+// file, created through logFile.open / bootstrap with an in-memory key registry.
+type VerifLog struct {
+	lf   *logFile
+	vlog *valueLog
+}
+
+// VerifLogHeaderSize is the size of the keyID/baseIV header of every log file.
+const VerifLogHeaderSize = vlogHeaderSize
+
+// VerifMaxHeaderSize is the maximum encoded size of an entry header.
+const VerifMaxHeaderSize = maxHeaderSize
+
+// VerifNewLog creates a new log file at path with the given mmap size. A non-empty encKey
+// (16/24/32 bytes) enables encryption: the registry generates a data key exactly as
+// logFile.bootstrap does for a DB opened with Options.EncryptionKey.
+func VerifNewLog(path string, fid uint32, fsize int64, encKey []byte, verifyValueChecksum bool) (*VerifLog, error) {
+	reg, err := OpenKeyRegistry(KeyRegistryOptions{
+		InMemory:                      true,
+		EncryptionKey:                 encKey,
+		EncryptionKeyRotationDuration: 240 * time.Hour,
+	})
+	if err != nil {
+		return nil, err
+	}
+	opt := DefaultOptions("")
+	opt.VerifyValueChecksum = verifyValueChecksum
+	opt.Logger = nil
+	lf := &logFile{
+		fid:      fid,
+		path:     path,
+		registry: reg,
+		writeAt:  vlogHeaderSize,
+		opt:      opt,
+	}
+	if err := lf.open(path, os.O_RDWR|os.O_CREATE|os.O_EXCL, fsize); err != z.NewFile {
+		if err == nil {
+			err = os.ErrExist
+		}
+		return nil, err
+	}
+	vl := &valueLog{
+		filesMap: map[uint32]*logFile{fid: lf},
+		maxFid:   fid + 1, // reads of fid are reads of a sealed file (no writable-offset check)
+		opt:      opt,
+		db:       &DB{opt: opt},
+	}
+	return &VerifLog{lf: lf, vlog: vl}, nil
+}
+
+// Encrypted tells whether the log encrypts key and value bytes.
+func (l *VerifLog) Encrypted() bool { return l.lf.encryptionEnabled() }
+
+// DataKey returns the AES key of the log (nil when not encrypted).
+func (l *VerifLog) DataKey() []byte {
+	if l.lf.dataKey == nil {
+		return nil
+	}
+	return l.lf.dataKey.Data
+}
+
+// BaseIV returns the 12-byte base IV stored in the file header.
+func (l *VerifLog) BaseIV() []byte { return append([]byte{}, l.lf.baseIV...) }
+
+// Data is the mmap-ed file content (the harness flips bytes in it).
+func (l *VerifLog) Data() []byte { return l.lf.Data }
+
+// WriteAt is the offset at which the next WriteEntry will place its record.
+func (l *VerifLog) WriteAt() uint32 { return l.lf.writeAt }
+
+// SetWriteAt moves the append position (used to place records at chosen offsets).
+func (l *VerifLog) SetWriteAt(off uint32) { l.lf.writeAt = off }
+
+// EncodeEntry runs logFile.encodeEntry for an entry placed at offset.
+func (l *VerifLog) EncodeEntry(key, value []byte, meta, userMeta byte, expiresAt uint64, offset uint32) ([]byte, int, error) {
+	e := &Entry{Key: key, Value: value, ExpiresAt: expiresAt, UserMeta: userMeta, meta: meta}
+	var buf bytes.Buffer
+	n, err := l.lf.encodeEntry(&buf, e, offset)
+	return buf.Bytes(), n, err
+}
+
+// DecodeEntry runs logFile.decodeEntry on the bytes of one record that sits at offset.
+func (l *VerifLog) DecodeEntry(rec []byte, offset uint32) (VerifLogEntry, error) {
+	e, err := l.lf.decodeEntry(rec, offset)
+	if err != nil {
+		return VerifLogEntry{}, err
+	}
+	return verifLogEntryFrom(e), nil
+}
+
+// WriteEntry appends one record with logFile.writeEntry (the production append path of the
+// memtable WAL) and returns the offset it was written at and its length.
+func (l *VerifLog) WriteEntry(key, value []byte, meta, userMeta byte, expiresAt uint64) (uint32, uint32, error) {
+	e := &Entry{Key: key, Value: value, ExpiresAt: expiresAt, UserMeta: userMeta, meta: meta}
+	var buf bytes.Buffer
+	off := l.lf.writeAt
+	if err := l.lf.writeEntry(&buf, e, l.lf.opt); err != nil {
+		return 0, 0, err
+	}
+	return off, l.lf.writeAt - off, nil
+}
+
+// SafeReadAt runs safeRead.Entry on the record at offset (checksum-verifying sequential
+// decoder used by iterate). errClass is "" | "truncate" | "eof" | "unexpectedEOF" | other text.
+func (l *VerifLog) SafeReadAt(offset uint32) (VerifLogEntry, string) {
+	reader := bufio.NewReader(l.lf.NewReader(int(offset)))
+	read := &safeRead{k: make([]byte, 10), v: make([]byte, 10), recordOffset: offset, lf: l.lf}
+	e, err := read.Entry(reader)
+	if err != nil {
+		return VerifLogEntry{}, verifErrClass(err)
+	}
+	return verifLogEntryFrom(e), ""
+}
+
+func verifErrClass(err error) string {
+	switch err {
+	case nil:
+		return ""
+	case errTruncate:
+		return "truncate"
+	}
+	switch err.Error() {
+	case "EOF":
+		return "eof"
+	case "unexpected EOF":
+		return "unexpectedEOF"
+	}
+	return err.Error()
+}
+
+// Iterate runs logFile.iterate from offset and returns every delivered entry (with the value
+// pointer handed to the callback), the valid end offset and the error class.
+func (l *VerifLog) Iterate(offset uint32) ([]VerifLogEntry, uint32, string) {
+	var out []VerifLogEntry
+	end, err := l.lf.iterate(true, offset, func(e Entry, vp valuePointer) error {
+		ve := verifLogEntryFrom(&e)
+		ve.PtrFid, ve.PtrOffset, ve.PtrLen = vp.Fid, vp.Offset, vp.Len
+		out = append(out, ve)
+		return nil
+	})
+	return out, end, verifErrClass(err)
+}
+
+// ReadValue runs valueLog.Read for a value pointer into this log file.
+func (l *VerifLog) ReadValue(offset, length uint32) ([]byte, error) {
+	vp := valuePointer{Fid: l.lf.fid, Offset: offset, Len: length}
+	buf, cb, err := l.vlog.Read(vp, nil)
+	var out []byte
+	if err == nil {
+		out = append([]byte{}, buf...)
+	}
+	runCallback(cb)
+	return out, err
+}
+
+// Truncate runs logFile.Truncate (ftruncate + remap), used to cut the file inside a record.
+func (l *VerifLog) Truncate(end int64) error { return l.lf.Truncate(end) }
+
+// Close unmaps and removes the file.
+func (l *VerifLog) Close() error { return l.lf.Delete() }
+
+// VerifHeader mirrors the entry header of log records.
+type VerifHeader struct {
+	Klen, Vlen     uint32
+	ExpiresAt      uint64
+	Meta, UserMeta byte
+}
+
+// VerifHeaderEncode runs header.Encode.
+func VerifHeaderEncode(h VerifHeader) []byte {
+	var buf [maxHeaderSize]byte
+	n := header{klen: h.Klen, vlen: h.Vlen, expiresAt: h.ExpiresAt, meta: h.Meta, userMeta: h.UserMeta}.Encode(buf[:])
+	return append([]byte{}, buf[:n]...)
+}
+
+// VerifHeaderDecode runs header.Decode.
+func VerifHeaderDecode(b []byte) (VerifHeader, int) {
+	var h header
+	n := h.Decode(b)
+	return VerifHeader{Klen: h.klen, Vlen: h.vlen, ExpiresAt: h.expiresAt, Meta: h.meta, UserMeta: h.userMeta}, n
+}
+
+// VerifHeaderDecodeFrom runs header.DecodeFrom over a hashReader on b.
+func VerifHeaderDecodeFrom(b []byte) (VerifHeader, int, error) {
+	var h header
+	n, err := h.DecodeFrom(newHashReader(bytes.NewReader(b)))
+	return VerifHeader{Klen: h.klen, Vlen: h.vlen, ExpiresAt: h.expiresAt, Meta: h.meta, UserMeta: h.userMeta}, n, err
+}
+
+// VerifVptrEncode runs valuePointer.Encode.
+func VerifVptrEncode(fid, length, offset uint32) []byte {
+	return valuePointer{Fid: fid, Len: length, Offset: offset}.Encode()
+}
+
+// VerifVptrDecode runs valuePointer.Decode.
+func VerifVptrDecode(b []byte) (fid, length, offset uint32) {
+	var p valuePointer
+	p.Decode(b)
+	return p.Fid, p.Len, p.Offset
+}
+
+// VerifVptrSize is the encoded size of a value pointer.
+const VerifVptrSize = int(vptrSize)
